@@ -6,7 +6,9 @@
    while its read loop still delivers a Subscribe — is the explicit event [EBreak] followed by [ESub];
    the finer interleaving "a stream leaves the pool WHILE a Subscribe handler sits between recording the
    interest and pool.AddTagsCtx" is the event [ESubMid], which follows the lock regions of the Go code
-   (pool.mu region of removeStream / remoteMu region of handleSubscribe / remoteMu region of onStreamClose).
+   (pool.mu region of removeStream / remoteMu region of handleSubscribe / remoteMu region of onStreamClose);
+   "the PUBLISHER's stream goes away (its context is cancelled, the pool drops it, its close hook runs) while its
+   Publish frame — already read — is being handled" is the event [EPubMid].
 
    Spaces, stream ids and accounts are numbers (the harness owns the tables); patterns/topics are byte
    strings so that Model/Trie.v is reused unchanged.  One stream per peer (peer id = stream id). *)
@@ -87,10 +89,15 @@ Inductive ev :=
 | ECloseSpace (space : N)
 | ESetMember (space acct : N) (b : bool)
 | ESnap
-| ESubMid (sid victim space : N) (pats : list str).
+| ESubMid (sid victim space : N) (pats : list str)
       (* Subscribe on [sid] during which stream [victim] (possibly [sid] itself) leaves the pool: if the handler gets as
          far as pool.AddTagsCtx, [victim] is removed from the pool right before that call — after the interest
          was recorded — and its close hook runs as soon as remoteMu allows; otherwise right after the handler *)
+| EPubMid (sid space : N) (topic : str) (claim : N) (relayed wellformed : bool).
+      (* Publish on [sid] whose stream goes away while the frame (already read) is being handled: the stream
+         context is cancelled and the stream leaves the pool (close hook included) at the first lookup the
+         handler makes on behalf of the publisher (Membership.CheckMember for a direct publish,
+         Relay.IsResponsibleNode for a relayed one); if the handler returns before any lookup, right after it *)
 
 Inductive out :=
 | ONone
@@ -309,6 +316,29 @@ Definition handle_sub_mid_gen (repaired : bool) (c : cfg) (s : svc) (sid victim 
     (pool_remove s2 victim, o).
 Definition handle_sub_mid := handle_sub_mid_gen true.
 
+(* does this run of handlePublish/relayPublish get as far as the first lookup made on behalf of the publisher
+   (relayed: Relay.IsResponsibleNode; direct: Membership.CheckMember, reached once the frame is well formed, the
+   topic canonical, the node responsible and the message identity equal to the handshake identity)? *)
+Definition pub_reaches_lookup (c : cfg) (s : svc) (sid space : N) (topic : str) (claim : N) (relayed wellformed : bool) : bool :=
+  match nassoc sid (sv_conns s) with
+  | None => false
+  | Some acct =>
+      wellformed && validate_topic topic && memN space (resp c)
+      && (relayed || (negb (N.eqb claim 0) && N.eqb claim (acct + 1)))
+  end.
+
+(* handlePublish on [sid] while the publisher's stream goes away.  The frame has been read; the stream context is
+   cancelled inside the first lookup, the pool's write loop drops the stream and its close hook runs (no lock is
+   held by the handler at that point); the handler then carries on with the frame: the remaining ingress checks,
+   fanout, forward.  Status replies made from then on cannot reach the stream any more.  A run that makes no
+   lookup is followed by the removal. *)
+Definition handle_pub_mid (c : cfg) (s : svc) (sid space : N) (topic : str) (claim : N) (relayed wellformed : bool) : svc * out :=
+  if pub_reaches_lookup c s sid space topic claim relayed wellformed then
+    handle_pub c (pool_remove s sid) sid space topic claim relayed wellformed
+  else
+    let '(s2, o) := handle_pub c s sid space topic claim relayed wellformed in
+    (pool_remove s2 sid, o).
+
 Definition drop_conn (s : svc) (sid : N) : svc :=
   mkSvc (sv_remote s) (sv_streams s) (sv_pool s) (ndel sid (sv_conns s)) (sv_members s) (sv_rate s).
 
@@ -364,6 +394,7 @@ Definition svc_step_gen (repaired : bool) (c : cfg) (s : svc) (e : ev) : svc * o
   | ESetMember space acct b => (set_member s space acct b, ONone)
   | ESnap => (s, snapshot s)
   | ESubMid sid victim space pats => handle_sub_mid_gen repaired c s sid victim space pats
+  | EPubMid sid space topic claim relayed wf => handle_pub_mid c s sid space topic claim relayed wf
   end.
 
 Definition svc_step := svc_step_gen true.
@@ -500,25 +531,11 @@ Definition after_break (p : pstate) (sid : N) : pstate :=
   mkP (filter (fun t => negb (N.eqb (tr_sid t) sid)) (p_reg p)) (p_accts p)
       (filter (fun x => negb (N.eqb x sid)) (p_pooled p)) (p_mem p) (p_passed p).
 
-Definition spec_step (c : cfg) (p : pstate) (e : ev) (o : out) : bool * pstate :=
-  let same := (true, p) in
+(* a Publish frame on [sid] and the outcome [o] observed for it *)
+Definition spec_pub (c : cfg) (p : pstate) (sid space : N) (topic : str) (claim : N) (relayed wf : bool) (o : out)
+  : bool * pstate :=
   let bad := (false, p) in
   let is_none := match o with ONone => true | _ => false end in
-  match e with
-  | EOpen sid acct =>
-      (is_none, mkP (p_reg p) (nset sid acct (p_accts p)) (sid :: filter (fun x => negb (N.eqb x sid)) (p_pooled p))
-                    (p_mem p) (p_passed p))
-  | ESub sid space pats => spec_sub c p sid space pats o
-  | EUnsub sid space pats =>
-      match nassoc sid (p_accts p) with
-      | None => (is_none, p)
-      | Some _ =>
-          (is_none,
-           mkP (filter (fun t => negb (N.eqb (tr_sid t) sid && N.eqb (tr_space t) space
-                                       && (is_nil pats || mem_str (tr_pat t) pats))) (p_reg p))
-               (p_accts p) (p_pooled p) (p_mem p) (p_passed p))
-      end
-  | EPub sid space topic claim relayed wf =>
       match nassoc sid (p_accts p) with
       | None => (is_none, p)
       | Some acct =>
@@ -548,7 +565,27 @@ Definition spec_step (c : cfg) (p : pstate) (e : ev) (o : out) : bool * pstate :
                 end
           | _ => bad
           end
+      end.
+
+Definition spec_step (c : cfg) (p : pstate) (e : ev) (o : out) : bool * pstate :=
+  let same := (true, p) in
+  let bad := (false, p) in
+  let is_none := match o with ONone => true | _ => false end in
+  match e with
+  | EOpen sid acct =>
+      (is_none, mkP (p_reg p) (nset sid acct (p_accts p)) (sid :: filter (fun x => negb (N.eqb x sid)) (p_pooled p))
+                    (p_mem p) (p_passed p))
+  | ESub sid space pats => spec_sub c p sid space pats o
+  | EUnsub sid space pats =>
+      match nassoc sid (p_accts p) with
+      | None => (is_none, p)
+      | Some _ =>
+          (is_none,
+           mkP (filter (fun t => negb (N.eqb (tr_sid t) sid && N.eqb (tr_space t) space
+                                       && (is_nil pats || mem_str (tr_pat t) pats))) (p_reg p))
+               (p_accts p) (p_pooled p) (p_mem p) (p_passed p))
       end
+  | EPub sid space topic claim relayed wf => spec_pub c p sid space topic claim relayed wf o
   | EClose sid =>
       (is_none, mkP (filter (fun t => negb (N.eqb (tr_sid t) sid)) (p_reg p)) (ndel sid (p_accts p))
                     (filter (fun x => negb (N.eqb x sid)) (p_pooled p)) (p_mem p) (p_passed p))
@@ -581,6 +618,15 @@ Definition spec_step (c : cfg) (p : pstate) (e : ev) (o : out) : bool * pstate :
       (* whatever is replied must be a legal reply to that Subscribe; whatever the interleaving, afterwards
          [victim] holds no interest and is not pooled, and nobody else's registrations are disturbed *)
       let '(ok, p1) := spec_sub c p sid space pats o in (ok, after_break p1 victim)
+  | EPubMid sid space topic claim relayed wf =>
+      (* the publisher's stream goes away while its frame is being handled.  Delivery depends on the ingress
+         checks and the registered interest only, not on the liveness of the publisher's stream once the frame
+         was read: the outcome must be that of the same Publish handled either just AFTER the publisher left
+         the pool or just BEFORE (the two differ only in the publisher's own copy and in whether a Status
+         reply can still reach it); afterwards the publisher holds no interest and is not pooled *)
+      let '(ok1, _) := spec_pub c (after_break p sid) sid space topic claim relayed wf o in
+      let '(ok2, p2) := spec_pub c p sid space topic claim relayed wf o in
+      (ok1 || ok2, after_break p2 sid)
   end.
 
 Fixpoint spec_svc_from (c : cfg) (p : pstate) (evs : list ev) (obs : list out) : bool :=
